@@ -77,6 +77,20 @@ def build(spec):
         return MGrid(*[build(g) for g in spec["grids"]])
     if k == "flat":
         return FlatGrid(build(spec["grid"]), ordering=spec["ordering"])
+    if k == "sparse":
+        # a SparseGrid over a regular grid: level l+1 keeps exactly the children of the chosen refined pixels of level l
+        from nifty.re.multi_grid.grid import SparseGrid
+        base = build(spec["grid"])
+        fg = FlatGrid(base, ordering="nest")
+        maps = [np.arange(int(fg.at(0).shape[0]), dtype=np.int64)]
+        for lvl, frac in enumerate(spec["refine"]):
+            cur = maps[-1]
+            pick = cur[[i for i in range(len(cur)) if (i * 7 + lvl) % frac[1] < frac[0]]]
+            if pick.size == 0:
+                pick = cur[:1]
+            ch = np.asarray(fg.at(lvl).children(pick[None, :]))[0]
+            maps.append(np.sort(ch.reshape(-1)).astype(np.int64))
+        return SparseGrid(base, tuple(maps))
     if k in PHYS_KINDS:
         from nifty.re.multi_grid.grid_impl import BrokenLogGrid, LogGrid, SimpleOpenGrid
         kw = dict(min_shape=tuple(spec["min_shape"]), window_size=spec.get("window", 3), splits=spec.get("splits", 2),
@@ -106,7 +120,7 @@ def depth_of(spec):
         return spec["depth"]
     if k == "mgrid":
         return depth_of(spec["grids"][0])
-    return depth_of(spec["grid"])
+    return depth_of(spec["grid"])          # flat, sparse
 
 
 def leaves(spec):
@@ -213,7 +227,14 @@ class LevelData:
         return self.get("rf", lambda: np.broadcast_to(np.asarray(self._jit(self.ga._is_index_refined, self.pidx)).astype(bool), (self.P,))[:self.N])
 
     def refined_indices(self):
-        return self.get("ri", lambda: np.asarray(self.ga.refined_indices()).reshape(self.nd, -1))
+        def f():
+            import jax
+            try:        # one compiled program instead of dozens of tiny eager ones (FlatGrid / MGrid build it with jnp loops)
+                r = jax.jit(lambda: self.ga.refined_indices())()
+            except Exception:
+                r = self.ga.refined_indices()      # SparseGrid selects with a boolean mask: not traceable
+            return np.asarray(r).reshape(self.nd, -1)
+        return self.get("ri", f)
 
     def coords_padded(self):
         return self.get("cop", lambda: np.asarray(self._jit(self.ga.index2coord, self.pidx), dtype=np.float64))
@@ -343,6 +364,8 @@ def compare_level(ctx, spec, level, real, model):
 def oracle(case, grid=None):
     """the property statement on the real code only (all indices of all levels of the grid described by case["spec"])"""
     spec = case["spec"]
+    if case.get("aspect") == "amend":
+        return oracle_amend(case)
     win = case.get("win")
     if grid is None:
         try:
@@ -352,11 +375,11 @@ def oracle(case, grid=None):
     d = grid.depth
     nd = int(grid.at(0).ndim)
     if not win:
-        inner_nd = int(grid.grid.at(0).ndim) if spec["kind"] == "flat" else nd
-        lv = leaves(spec["grid"] if spec["kind"] == "flat" else spec)
+        inner_nd = int(grid.grid.at(0).ndim) if spec["kind"] in ("flat", "sparse") else nd
+        lv = leaves(spec["grid"] if spec["kind"] in ("flat", "sparse") else spec)
         win = []
         for lf in lv:
-            win += [1] if lf["kind"] == "hp" else [3] * len(lf["shape0"])
+            win += [1] if lf["kind"] == "hp" else [3] * len(lf.get("shape0", lf.get("min_shape", [0])))
         assert len(win) == inner_nd
     try:
         return _oracle_levels(spec, grid, d, nd, win)
@@ -373,7 +396,8 @@ def _oracle_levels(spec, grid, d, nd, win):
         sig = dict(kind=spec["kind"], level_has_children=level < d)
         # neighbourhoods: in range, centre present, translation consistent
         try:
-            nb = L.nbh(win)
+            # neighbours of a sparse-grid pixel need not be on the grid (insertion positions are returned): not checked
+            nb = None if spec["kind"] == "sparse" else L.nbh(win)
         except NotImplementedError:
             nb = None
         if nb is not None:
@@ -434,6 +458,51 @@ def _oracle_levels(spec, grid, d, nd, win):
             if (vc > vp * (1 + 1e-9)).any():
                 return (f"level {level}: the children of a pixel have more volume than the pixel",
                         dict(sig, what="volume-children"))
+    return None
+
+
+def oracle_amend(case):
+    """`Grid.amend`: a grid built with depth d-1 and amended by the last level is the grid built with depth d"""
+    spec = case["spec"]
+    inner = spec["grid"] if spec["kind"] == "flat" else spec
+    if inner["kind"] not in ("regular", "open", "hp") or depth_of(spec) < 1:
+        return None
+    d = depth_of(spec)
+    sig = dict(kind=spec["kind"], what="amend")
+    try:
+        full = build(spec)
+        if inner["kind"] == "hp":
+            short = dict(inner, depth=d - 1)
+            sg = build(short if spec["kind"] != "flat" else dict(spec, grid=short))
+            am = sg.amend(added_depth=1) if spec["kind"] != "flat" else sg.amend((4,))
+        else:
+            short = dict(inner, splits=inner["splits"][:-1])
+            if inner["kind"] == "open":
+                short["padding"] = inner["padding"][:-1]
+            sg = build(short if spec["kind"] != "flat" else dict(spec, grid=short))
+            if inner["kind"] == "open":
+                am = sg.amend((tuple(inner["splits"][-1]),), (tuple(inner["padding"][-1]),)) if spec["kind"] != "flat" else None
+            else:
+                am = sg.amend((tuple(inner["splits"][-1]),))
+        if am is None:
+            return None
+        if am.depth != full.depth:
+            return (f"amend: depth {am.depth} != {full.depth}", sig)
+        for lvl in (d - 1, d):
+            ga, gb = am.at(lvl), full.at(lvl)
+            if [int(x) for x in ga.shape] != [int(x) for x in gb.shape]:
+                return (f"amend: level {lvl} has shape {list(ga.shape)}, the directly built grid {list(gb.shape)}", sig)
+        import jax
+        idx = np.asarray(jax.jit(lambda: full.at(d - 1).refined_indices())()).reshape(int(full.at(d - 1).ndim), -1)
+        ca = np.asarray(jax.jit(am.at(d - 1).children)(padded(idx)))
+        cb = np.asarray(jax.jit(full.at(d - 1).children)(padded(idx)))
+        if not np.array_equal(ca, cb):
+            return ("amend: children on the amended level differ from the directly built grid", sig)
+        cidx = allidx(full.at(d).shape)
+        if not np.array_equal(np.asarray(jax.jit(am.at(d).parent)(padded(cidx))), np.asarray(jax.jit(full.at(d).parent)(padded(cidx)))):
+            return ("amend: parents on the new level differ from the directly built grid", sig)
+    except Exception as e:
+        return (f"amend raised {type(e).__name__}: {str(e)[:100]}", dict(sig, error=type(e).__name__))
     return None
 
 
@@ -565,7 +634,8 @@ def gen_win(rng, spec, nd_axes):
         if a["hp"]:
             wins.append(1)
         else:
-            wins.append(rng.choice([1, 2, 3, 3, 4, 5]))
+            # keep the neighbourhood size prod(window) moderate on grids with many axes
+            wins.append(rng.choice([1, 2, 3, 3, 4, 5] if len(nd_axes) <= 2 else ([1, 2, 3, 3] if len(nd_axes) == 3 else [1, 2, 2, 3])))
     return wins
 
 
@@ -594,20 +664,32 @@ _OPEN = {
     3: dict(kind="open", shape0=[4, 3, 5], splits=[[1, 2, 3]], padding=[[1, 0, 2]]),
     4: dict(kind="open", shape0=[3, 2, 4, 3], splits=[[2, 1, 1, 2]], padding=[[1, 0, 1, 0]]),
 }
-FIXED = [_REG[n] for n in (2, 3, 4)] + [_OPEN[n] for n in (2, 3, 4)] + [
-    dict(kind="hp", nside0=1, depth=2),
+# depth 3 (level 2 is an inner level with both a parent and children), different splits on every level
+_DEEP = [dict(kind="regular", shape0=[1, 2], splits=[[2, 1], [1, 3], [2, 2]]),
+         dict(kind="open", shape0=[5], splits=[[2], [1], [3]], padding=[[1], [1], [1]])]
+_PHYS = [dict(kind="simpleopen", min_shape=[5, 4], depth=2, window=3, splits=2, distances=None),
+         dict(kind="log", min_shape=[6], depth=2, window=3, splits=2, r_min=0.5, r_max=20.0),
+         dict(kind="brokenlog", min_shape=[6], depth=1, window=3, splits=2, r_min=0.5, r_linthresh=2.0, r_max=20.0)]
+_MG = dict(kind="mgrid", grids=[_REG[2], dict(kind="regular", shape0=[2], splits=[[3], [1]])])
+# quick tier: every grid kind, 3 and 4 axes with unequal lengths, both flat orderings, an inner level (depth 3)
+FIXED_QUICK = [_REG[3], _REG[4], _OPEN[3]] + _DEEP + [
+    dict(kind="hp", nside0=1, depth=1),
     dict(kind="mgrid", grids=[_REG[1], _OPEN[1]]),
     dict(kind="mgrid", grids=[dict(kind="regular", shape0=[2], splits=[[2]]), dict(kind="hp", nside0=1, depth=1),
                               dict(kind="regular", shape0=[1, 3], splits=[[3, 1]])]),
-] + [dict(kind="flat", ordering=o, grid=_REG[n]) for o in ("serial", "nest") for n in (1, 2, 3, 4)] + [
-    dict(kind="flat", ordering="serial", grid=_OPEN[n]) for n in (2, 3, 4)] + [
+    dict(kind="flat", ordering="serial", grid=_REG[3]),
+    dict(kind="flat", ordering="nest", grid=_REG[3]), dict(kind="flat", ordering="nest", grid=_REG[4]),
+    dict(kind="flat", ordering="serial", grid=_OPEN[3]),
+    dict(kind="flat", ordering="nest", grid=_DEEP[0]), dict(kind="flat", ordering="serial", grid=_DEEP[1]),
     dict(kind="flat", ordering="nest", grid=dict(kind="hp", nside0=1, depth=1)),
-    dict(kind="flat", ordering="serial", grid=dict(kind="mgrid", grids=[_REG[2], dict(kind="regular", shape0=[2], splits=[[3], [1]])])),
-    dict(kind="flat", ordering="nest", grid=dict(kind="mgrid", grids=[_REG[2], dict(kind="regular", shape0=[2], splits=[[3], [1]])])),
-    dict(kind="simpleopen", min_shape=[5, 4], depth=2, window=3, splits=2, distances=None),
-    dict(kind="log", min_shape=[6], depth=2, window=3, splits=2, r_min=0.5, r_max=20.0),
-    dict(kind="brokenlog", min_shape=[6], depth=1, window=3, splits=2, r_min=0.5, r_linthresh=2.0, r_max=20.0),
-]
+    dict(kind="flat", ordering="serial", grid=_MG),
+] + _PHYS
+# thorough tier: the complete families
+FIXED_MORE = [_REG[1], _REG[2], _OPEN[1], _OPEN[2], _OPEN[4], dict(kind="hp", nside0=1, depth=2),
+              dict(kind="flat", ordering="serial", grid=_REG[4])] + [
+    dict(kind="flat", ordering=o, grid=_REG[n]) for o in ("serial", "nest") for n in (1, 2)] + [
+    dict(kind="flat", ordering="serial", grid=_OPEN[n]) for n in (2, 4)] + [dict(kind="flat", ordering="nest", grid=_MG)]
+FIXED = FIXED_QUICK
 
 
 class _Job:
@@ -715,6 +797,11 @@ def check_levels(ctx, j, outs):
     r = oracle(dict(spec=spec, win=j.win), grid=j.grid)
     if r:
         ctx.counterexample(dict(spec=spec, win=j.win), *r)
+    if d >= 1 and spec["kind"] in ("regular", "open", "hp", "flat") and (not ctx.quick or ctx.dist["amend"] < 5):
+        r = oracle_amend(dict(spec=spec))
+        ctx.stat("amend")
+        if r:
+            ctx.counterexample(dict(spec=spec, aspect="amend"), *r)
 
 
 def check_specs(ctx, specs):
@@ -782,10 +869,19 @@ def misc_requests(ctx):
 
 def run(ctx):
     _jax()
-    specs = [c["spec"] for c in _corpus()] + FIXED
+    specs = [c["spec"] for c in _corpus()] + FIXED_QUICK + ([] if ctx.quick else FIXED_MORE)
     for _ in range(ctx.n(2, 50)):
         specs.append(gen_spec(ctx.rng, ctx.quick))
     check_specs(ctx, specs)
+    # SparseGrid (array-index compaction of a nest-flattened grid): oracle only
+    sparse = [dict(kind="sparse", grid=_REG[2], refine=[[1, 2], [2, 3]]), dict(kind="sparse", grid=_REG[3], refine=[[2, 3], [1, 2]]),
+              dict(kind="sparse", grid=dict(kind="hp", nside0=1, depth=2), refine=[[1, 3], [1, 2]])]
+    for sp in sparse[:ctx.n(2, 3)]:
+        ctx.case(dict(spec=sp), True)
+        ctx.stat("kind:sparse")
+        r = oracle(dict(spec=sp))
+        if r:
+            ctx.counterexample(dict(spec=sp), *r)
     ctx.extra["exhaustive_per_grid"] = "every index of every level of every generated grid"
 
 
